@@ -254,12 +254,17 @@ func c10Case(w *core.W, j int) {
 	if j%5 == 2 && j%7 != 5 {
 		owner = append(model.Name{[]byte("B\xc3\x9cCHER-\xe2\x84\xaa-\xc3\x89")}, zone...) // UTF-8 upper-case letters outside ASCII
 	}
+	if j%11 == 6 {
+		// leftmost labels that merely start with, end in or contain an asterisk: ordinary names
+		owner = append(model.Name{[][]byte{[]byte("*ab"), []byte("**"), []byte("a*"), []byte("*.x")}[j/11%4]}, zone...)
+	}
 	if wild {
 		owner = append(model.Name{[]byte("*")}, zone...)
 	}
 	if !owner.Valid() {
 		return
 	}
+	wild = string(owner[0]) == "*" // also when the generator drew "*" as an ordinary label
 	g.Pool = []model.Name{zone, owner}
 	var set c10Set
 	n := 1 + g.R.IntN(6)
